@@ -140,6 +140,17 @@ func reportStream(seed uint64, n int) {
 		}
 		return raws
 	}
+	// the whole address space, $0000-$FFFF (65 536 addresses: one more than a 16-bit length can hold), once per strategy
+	for _, strategy := range []string{"median", "abs"} {
+		raws := make([]int, 65536)
+		vals := make([]uint8, 65536)
+		for k := range raws {
+			raws[k] = 1 + (k*7+k/256)%5
+			vals[k] = uint8(k * 3)
+		}
+		count("report.full64k")
+		emit(reportCase(r, strategy, []int{10, 50}[r.Intn(2)], 0, raws, vals, map[uint16][]string{0x0000: {"zero"}, 0xFFFF: {"top"}}))
+	}
 	for i := 0; i < n; i++ {
 		ln := []int{1, 2, 3, 9, 10, 11, 99, 100, 101, 1 + r.Intn(300)}[r.Intn(10)]
 		kind := r.Intn(5)
